@@ -18,6 +18,7 @@ else
   ( cd "$S/repo" && git apply "$P" ) || { echo "PATCH FAILED"; rm -rf "$S"; exit 3; }
 fi
 ( cd "$S/repo" && git diff --stat | tail -1 )
+if ( cd "$S/repo" && git diff --quiet ); then echo "PATCH FAILED (no change applied)"; rm -rf "$S"; exit 3; fi
 cd /verif
 RV_REPO="$S/repo" RV_NO_EVIDENCE=1 ./check "$PROP" --tier "$TIER" 2>&1 | grep -E "^(VIOLATION|HELD|INCONCLUSIVE|KNOWN|C[0-9]+ tier)" | cut -c1-300 | head -8
 rc=${PIPESTATUS[0]}
